@@ -196,6 +196,46 @@ func c14MiscScenario(id string, seed int64) core.Scenario {
 				c.Inconclusive("watchdog in " + id)
 			}
 		}
+		// an IO whose effect itself asks a generator through the evaluating coroutine (YieldFrom inside YieldFromIO), run
+		// inline or on a Handler: YieldFromIO returns the IO's value, the generator's answers go to the YieldFrom calls
+		for round := 0; round < 40; round++ {
+			useHandler := round%2 == 0
+			var gen2 *fpgo.CorDef[interface{}]
+			gen2 = fpgo.Cor.New(func() {
+				for k := 1; k <= 3; k++ {
+					gen2.YieldRef(k)
+				}
+			})
+			gen2.Start()
+			done2 := make(chan interface{}, 1)
+			go func() {
+				done2 <- fpgo.Cor.DoNotation(func(self *fpgo.CorDef[interface{}]) interface{} {
+					io := fpgo.MonadIO.New(func() interface{} { return self.YieldFrom(gen2, nil).(int) + 1000 })
+					if useHandler {
+						io = io.ObserveOn(h)
+					}
+					a := self.YieldFromIO(io)
+					b := self.YieldFrom(gen2, nil)
+					cc := self.YieldFrom(gen2, nil)
+					return []interface{}{a, b, cc}
+				})
+			}()
+			select {
+			case r := <-done2:
+				if fmt.Sprint(r) != "[1001 2 3]" {
+					c.Violationf("YieldFromIO:effect-using-YieldFrom", rep, "YieldFromIO of an IO whose effect returns YieldFrom(gen)+1000 (effect on a Handler: %v), followed by two YieldFrom(gen): got %v, want [1001 2 3]", useHandler, r)
+					round = 1000
+				}
+			case <-time.After(30 * time.Second):
+				gs, dump := core.Dump()
+				if len(core.ActiveRepoGoroutines(gs)) == 0 {
+					c.Violationf("YieldFromIO:stuck", map[string]any{"goroutines": core.RepoGoroutineSummary(dump)}, "YieldFromIO of an IO whose effect uses YieldFrom never returned (effect on a Handler: %v)", useHandler)
+				} else {
+					c.Inconclusive("watchdog in " + id)
+				}
+				round = 1000
+			}
+		}
 		// Start twice / StartWithVal after Start are ignored; a never-started coroutine reports neither flag
 		idle := fpgo.CorNewGenerics[int](func() {})
 		if idle.IsStarted() || idle.IsDone() {
@@ -246,7 +286,7 @@ func init() {
 		Meta: func(c *core.Ctx) core.Meta {
 			return core.Meta{
 				Level:       "exploration",
-				Rule:        "topologies of 1..8 caller coroutines with 1..12 requests each (more than the channel buffer of 5) against one target that serves exactly the total, three generator shapes (fixed sequence, echo of the previous x, running accumulate), with and without StartWithVal, PRNG yields at cor.YieldRef.taken / cor.YieldFrom.sent / cor.doCloseSafe.checked; x = (caller, i) unique and y_k unique; goroutine-local logs joined by a WaitGroup the effects signal; oracle: every x exactly once at the target, the caller of the request taken as step k received exactly y_k, per-caller positions increase, counts match; StartWithVal value reaches the first YieldRef, DoNotation / YieldFromIO values and single IO effect, IsStarted/IsDone inside and after the effect; stuck detector; repeated under -race (deciding for cor.go). distinct_nontrivial = distinct topologies + hook-trace signatures",
+				Rule:        "topologies of 1..8 caller coroutines with 1..12 requests each (more than the channel buffer of 5) against one target that serves exactly the total, three generator shapes (fixed sequence, echo of the previous x, running accumulate), with and without StartWithVal, PRNG yields at cor.YieldRef.taken / cor.YieldFrom.sent / cor.doCloseSafe.checked; x = (caller, i) unique and y_k unique; goroutine-local logs joined by a WaitGroup the effects signal; oracle: every x exactly once at the target, the caller of the request taken as step k received exactly y_k, per-caller positions increase, counts match; StartWithVal value reaches the first YieldRef, DoNotation / YieldFromIO values and single IO effect, YieldFromIO of an IO whose own effect calls YieldFrom through the evaluating coroutine (inline and on a Handler), IsStarted/IsDone inside and after the effect; stuck detector; repeated under -race (deciding for cor.go). distinct_nontrivial = distinct topologies + hook-trace signatures",
 				Assumptions: []string{"only while the target has YieldRefs left to serve (statement); YieldFrom on a finished target is property C15", "the y of the YieldRef that consumes the StartWithVal value has no recipient by design"},
 			}
 		},
